@@ -406,8 +406,10 @@ func (c *conn) closeSubscription(id string) {
 // goroutine; by the time that goroutine runs, the client may already have unsubscribed
 // and subscribed again under the same id, and that newer subscription must survive.
 func (c *conn) closeSubscriptionOf(id string, runner **reactive.Rerunner) {
+	vh("close.enter", id)
 	c.mu.Lock()
 	defer c.mu.Unlock()
+	vh("close.locked", id, c.subscriptions[id] != nil && c.subscriptions[id] == *runner)
 
 	if current, ok := c.subscriptions[id]; ok && current == *runner {
 		current.Stop()
